@@ -879,7 +879,7 @@ fn run<W: C14Word>(ctx: &mut Ctx) {
     let widths: Vec<usize> = if ctx.small { vec![1, 3, 4, bits / 2 + 1, bits - 4, bits - 1, bits] } else { widths_for(bits, all_widths).into_iter().filter(|w| *w > 0).collect() };
     let maxlen_cap = ctx.scale(30, 200, 300);
     let maxlen_for = |width: usize| -> usize { ((bits / width.max(1)).max(1) * 4 + 3).min(maxlen_cap) };
-    let reps = ctx.scale(1, 1, 3);
+    let reps = ctx.scale(1, 2, 4);
     for (wi, &width) in widths.iter().enumerate() {
         let wc = width_class(width, bits);
         // reads: every garbage kind x spare 0..=3
@@ -1036,7 +1036,9 @@ fn main() {
     }
 
     // random rounds on top
-    let rounds = ctx.scale(0, 500, 6000) as u64;
+    let rounds = ctx.scale(0, 5000, 12000) as u64;
+    // ASan runs about four times slower: a quarter of the random rounds
+    let rounds = if ctx.build == "ASAN" { rounds / 4 } else { rounds };
     for r in 0..rounds {
         random_round::<u8>(&mut ctx, r);
         random_round::<u16>(&mut ctx, r);
